@@ -61,6 +61,29 @@ def main(tier, seed):
                                                "attribute and first key, built in this order from the same builders)"})
     ebad, edited_checked = qtie.edited_point_check(tf, qs[:n_exh], built[:n_exh], univ)
     direct_bad += [dict(x, point=x["point_after_edit"], implementation=x["same_object_after"], documented_meaning=x["fresh_equal_query_after"]) for x in ebad]
+    # test functions that tell apart values that compare equal (3 / 3.0, 0.0 / -0.0, one instant in two zones): ONE query object asked about one and
+    # then the other, in both orders - whatever it remembers about a value must not answer for another value that merely compares equal
+    import math as _math
+    from datetime import datetime as _dtm, timedelta as _tdl, timezone as _tzn
+    sens_checked = 0
+    inst = _dtm(2021, 6, 1, 12, 0, tzinfo=_tzn.utc)
+    sens = [("fields", lambda v: isinstance(v, int), [3, 3.0, 1, 1.0]), ("fields", lambda v: _math.copysign(1.0, v) > 0, [0.0, -0.0, 0, -0.0]),
+            ("fields", lambda v: type(v).__name__ == "float", [2.0, 2, 5, 5.0]),
+            ("time", lambda t_: t_.utcoffset() == _tdl(0), [inst, inst.astimezone(_tzn(_tdl(hours=5))), inst.astimezone(_tzn(_tdl(hours=-8))), inst])]
+    for attr, fn, values in sens:
+        for order in (values, list(reversed(values))):
+            q = (tf.FieldQuery().a.test(fn) if attr == "fields" else tf.TimeQuery().test(fn))
+            for v in order:
+                pt = tf.Point(time=v, fields={"a": 1}) if attr == "time" else tf.Point(time=inst, fields={"a": v})
+                want = bool(fn(v))
+                try:
+                    got = q(pt)
+                except Exception as e:  # noqa
+                    got = type(e).__name__
+                sens_checked += 1
+                if got is not want and len(direct_bad) < 5:
+                    direct_bad.append({"query": f"{'FieldQuery().a' if attr == 'fields' else 'TimeQuery()'}.test(<function telling ==-equal values apart>), ONE object asked in turn about {order!r}",
+                                       "point": {"value": repr(v)}, "implementation": repr(got), "documented_meaning": want})
     shard = 600
     files = []
     for i in range(0, len(qs), shard):
@@ -90,7 +113,7 @@ def main(tier, seed):
                       "what_no_longer_checks": "correspondence Query.eval (theorems C09_*) vs SimpleQuery/CompoundQuery.__call__",
                       "disagreeing_queries": len(mism)}, no_input=True)
     ck.cov = {
-        "same_object_after_in_place_edit_checked": edited_checked,
+        "same_object_after_in_place_edit_checked": edited_checked, "type_sensitive_tests_checked": sens_checked,
         "translator": {"source": "tinyflux/queries.py: every place a query object gets its _hash key, its test operator, its == -> coq/gen/QueryGen.v (regenerated on this run)",
                        "refused": refused, "equivalence_theorems": "enc_eqb, gen_qhash_eq, gen_qeq_eq, gen_tables (proofs/QueryGenP.v)"},
         "obligations": b["obligations"], "discharged": b["discharged"],
